@@ -9,7 +9,7 @@ LEDGER = [
     "6. usize is 64 bits; arithmetic overflow is an error in both profiles",
     "7. with_capacity/reserve may panic or abort (capacity overflow, OOM): partial correctness",
     "8. Drop, deallocation, mem::forget and unwinding are not modelled",
-    "9. extraction rules R1-R14 preserve meaning (identity check re-derives every function token-for-token on each run)",
+    "9. extraction rules R1-R17 preserve meaning (identity check re-derives every function token-for-token on each run); R16 materialises libcore's provided Iterator::for_each as its defining loop, R17 routes size_hint of a caller iterator through an identity wrapper whose result is unconstrained",
     "10. Verus, Z3, rustc 1.98.1 are trusted",
     "11. production cfg only: cfg(test)/miri/rayon/serde items are not verified",
 ]
@@ -20,8 +20,8 @@ HOOKS = {"guard": "verif-hooks (cargo feature of griddle, off by default)",
          "enable": "the Kani harness crate /verif/kani depends on griddle with features = [\"verif-hooks\"] (HashMap/HashSet::verif_state()); the Verus checks read source and need no hook",
          "baseline_off_cmd": "cd /repo && cargo test --workspace --no-fail-fast --offline", "source_commits": ["9602676"], "add_only": True}
 NOTES = ("All checks share one pipeline: extract real functions from /repo's working tree, splice contracts, Verus twice (debug-assertions on/off) "
-         "plus a vacuity-probe run. exit 2 = UNDECIDED (tool limit / lost anchor), never an alarm. Three defects were repaired with fix: commits "
-         "(e250819, d078205, c07d4e4); one finding (zero-sized elements) is recorded in known_findings.txt.")
+         "plus a vacuity-probe run. exit 2 = UNDECIDED (tool limit / lost anchor), never an alarm. Five defects were repaired with fix: commits "
+         "(e250819, d078205, c07d4e4, 8aace8e, 3cd8902), all recorded as fixed: in known_findings.txt; no open finding.")
 
 V = "Verus contracts on the real code (extracted mechanically each run), all inputs / sizes / iterations, both debug-assertion profiles"
 
